@@ -2,6 +2,7 @@ pub mod atomics;
 pub mod bits;
 pub mod builder;
 pub mod lenders;
+pub mod ranksel;
 pub mod sigstore;
 
 /// Dispatch a generic function over the world named `$name`.
@@ -13,6 +14,7 @@ macro_rules! with_world {
             "lenders" => $f::<$crate::worlds::lenders::LendersWorld>($($arg),*),
             "sigstore" => $f::<$crate::worlds::sigstore::SigstoreWorld>($($arg),*),
             "bits" => $f::<$crate::worlds::bits::BitsWorld>($($arg),*),
+            "ranksel" => $f::<$crate::worlds::ranksel::RankselWorld>($($arg),*),
             "builder" => $f::<$crate::worlds::builder::BuilderWorld>($($arg),*),
             other => panic!("unknown world {other}"),
         }
